@@ -81,3 +81,31 @@ def segment_primes(a, b):
             if s <= b:
                 seg[s - a::p] = bytearray(len(seg[s - a::p]))
     return [a + i for i, v in enumerate(seg) if v]
+
+
+KSHAPES = {
+    2: [(0, 2)],
+    3: [(0, 2, 6), (0, 4, 6)],
+    4: [(0, 2, 6, 8)],
+    5: [(0, 2, 6, 8, 12), (0, 4, 6, 10, 12)],
+    6: [(0, 4, 6, 10, 12, 16)],
+}
+
+
+def ktuplets_between(k, a, b, primes=None):
+    """the prime constellations of kind k (k = 2..6) all of whose members lie in [a, b], as tuples"""
+    if primes is None:
+        primes = segment_primes(a, b) if b < 2 * 10 ** 15 else primes_between(a, b)
+    ps = set(primes)
+    out = []
+    for p in primes:
+        for shape in KSHAPES[k]:
+            if all((p + d) in ps for d in shape) and p + shape[-1] <= b:
+                out.append(tuple(p + d for d in shape))
+    return sorted(out)
+
+
+def counts_between(a, b):
+    """[#primes, #twins, ..., #sextuplets] in [a, b]"""
+    primes = segment_primes(a, b) if b < 2 * 10 ** 15 else primes_between(a, b)
+    return [len(primes)] + [len(ktuplets_between(k, a, b, primes)) for k in range(2, 7)]
